@@ -99,6 +99,20 @@ class Call:
                 names = sorted({s.label() for s in srcs if s.kind in ("upvar", "param")})
                 if names:
                     nm = "|".join(names)
+                    # a captured callable of a generic type that is, in the body building this closure, a closure built
+                    # there (a helper taking `impl Fn` spliced into its caller): the call is a call of that closure
+                    ups = {s.a for s in srcs if s.kind == "upvar" and not s.b}
+                    if len(names) == 1 and len(ups) == 1 and self.body.captures:
+                        prog = self.body.prog
+                        for cn in self.body.captures:
+                            if cn.lstrip("*") != list(ups)[0].lstrip("*"):
+                                continue
+                            cap = prog.capture_operand(self.body, cn)
+                            if cap:
+                                defs = {norm(o[1]["def"]) for o in origins(cap[0], cap[1]) if o[0] == "rvalue" and o[1]["k"] == "agg" and o[1].get("ak") == "closure"}
+                                others = [o for o in origins(cap[0], cap[1]) if not (o[0] == "rvalue" and o[1]["k"] == "agg" and o[1].get("ak") == "closure")]
+                                if len(defs) == 1 and not others:
+                                    nm = list(defs)[0]
                 else:
                     loc = sorted({s.label() for s in srcs if s.kind in ("call",)})
                     nm = "fn-value:" + ("|".join(loc) if loc else "?")
@@ -748,6 +762,12 @@ class Program:
     def lib_bodies(self, crate="divan"):
         return [b for (ck, _, pr), b in self.bodies.items() if ck == crate and pr < 0]
 
+    def owner_bodies(self, crate="divan"):
+        """lib_bodies without the helpers lib.inline absorbed into every one of their callers: the bodies a search for
+        "the function that does X" should look at - X shows up in the caller that the helper was spliced into."""
+        ab = getattr(self, "_absorbed", ())
+        return [b for b in self.lib_bodies(crate) if (b.crate, b.path) not in ab]
+
     def all_bodies(self, promoted=False):
         return [b for (ck, _, pr), b in self.bodies.items() if promoted or pr < 0]
 
@@ -822,7 +842,29 @@ class Program:
     def parent_body(self, body):
         if body.parent is None:
             return None
-        return self.bodies.get((body.crate, body.parent, -1))
+        par = self.bodies.get((body.crate, body.parent, -1))
+        if par is not None and (par.crate, par.path) in getattr(self, "_absorbed", ()):
+            # the closure is built by a helper that lib.inline spliced into its caller(s): the body that builds it now
+            hosts = self.hosts_of(body)
+            if len(hosts) == 1:
+                return hosts[0]
+        return par
+
+    def hosts_of(self, closure):
+        """Bodies (absorbed helpers excepted) that contain the statement building `closure`."""
+        cache = self.__dict__.setdefault("_hosts", {})
+        key = (closure.crate, closure.path)
+        if key not in cache:
+            ab = getattr(self, "_absorbed", ())
+            out = []
+            for (ck, pth, pr), b in self.bodies.items():
+                if ck != closure.crate or pr >= 0 or (ck, pth) in ab:
+                    continue
+                if any(s["k"] == "assign" and s["rv"]["k"] == "agg" and s["rv"].get("ak") == "closure" and norm(s["rv"]["def"]) == closure.path
+                       for bl in b.blocks for s in bl["stmts"]):
+                    out.append(b)
+            cache[key] = out
+        return cache[key]
 
     def capture_operand(self, closure, upvar):
         """The operand the parent body stores into the closure for captured variable `upvar`:
